@@ -858,6 +858,10 @@ def rel_clone_join(ctx, start_iso, step, nsteps, j, x0, model, integration, geo=
                     from resonaate.data.agent import AgentModel
 
                     xs = np.array(app.target_agents[10001].eci_state, dtype=float)
+                    if float(np.linalg.norm(xs[:3])) > 6378.0 + 44000.0:
+                        # the agent configuration refuses initial altitudes above 45000 km: an eccentric original may be up there now
+                        ctx.count("clone_join_skipped_above_config_altitude_limit")
+                        return False
                     app.database.insertData(AgentModel(unique_id=10002, name="T10002"))
                     app.addTarget(sk.target_cfg(10002, xs[:3], xs[3:]), 1)
                 elif k > j:
